@@ -88,9 +88,9 @@ theorem segLoop_requests_bounded {σ : Type} (w : World σ) (cfg : Cfg) (P : Dev
 /-- Upload segment response (command 3, as ethercrab requires), not last, mailbox length 3: zero data bytes. -/
 def zeroSeg : List Nat := [3, 0, 0, 0, 0, 0x33, 0, 0x30, 0x60]
 
-/-- A 32-byte mailbox in a checked build with the emergency assertion compiled in. -/
+/-- A 32-byte mailbox in a checked build. -/
 def cfg32 : Cfg :=
-  { mode := .checked, rmbx := 32, wmbx := 32, hasMailbox := true, assertEmergency := true, pre := [], post := [] }
+  { mode := .checked, rmbx := 32, wmbx := 32, hasMailbox := true, pre := [], post := [] }
 
 def zeroSegHdr : SdoSegmented :=
   { header := { length := 3, priority := 0, mailboxType := 3, counter := 3 }, service := 3, isLast := false,
@@ -155,7 +155,7 @@ theorem segLoop_zeroSegs : ∀ (n fuel : Nat) (toggle : Bool) (buf : List Nat) (
 def zeroFrag : List Nat := [8, 0, 0, 0, 0, 0x73, 0, 0x80, 0x82, 0, 1, 0, 0, 0]
 
 def cfg16 : Cfg :=
-  { mode := .checked, rmbx := 16, wmbx := 16, hasMailbox := true, assertEmergency := true, pre := [], post := [] }
+  { mode := .checked, rmbx := 16, wmbx := 16, hasMailbox := true, pre := [], post := [] }
 
 def zeroFragHdr : ListResponse :=
   { mailbox := { length := 8, priority := 0, mailboxType := 3, counter := 7 }, service := 8, opCode := 2,
